@@ -26,7 +26,7 @@ ALL_CONS = ["CollP", "CollP16", "CollF", "CollG", "OptP", "IfP", "TBP", "TBPe", 
             "TmplCtx", "TmplCtxUp", "Adapt"]
 # ill-formed programs (context lookups that cannot resolve, switches over signed / wide selectors): they have no domain
 # values; the model only requires Enc to classify them as such and Dec to stay total
-MISUSE_CONS = ["MisOpt", "MisTup", "MisSel", "MisName", "MisUp", "MisFlagS", "MisEnumW", "MisBitS"]
+MISUSE_CONS = ["MisOpt", "MisTup", "MisSel", "MisSel2", "MisName", "MisName2", "MisUp", "MisFlagS", "MisEnumW", "MisBitS"]
 INVS = ["RoundTrip", "Compose", "SizeSound", "EndianAgnostic", "DecTotal", "DecProbe", "EncTotal"]
 TAILS = [b"", b"\x00", b"\xff\x01", b"\x00\x00\x07"]
 JVM = ("-XX:ParallelGCThreads=2", "-XX:CICompilerCount=2")   # many small JVMs side by side: keep each one narrow
